@@ -75,12 +75,10 @@ func (evt *throwEvent) run(ctx context.Context, sender tracing.ISenderHandle) {
 			case startMessage:
 				evt.flow(ctx)
 			case nextActionMessage:
-				if !evt.activated.Load() {
-					evt.activated.Store(true)
-					m.response <- flowAction{sequenceFlows: allSequenceFlows(&evt.outgoing)}
-				} else {
-					m.response <- completeAction{}
-				}
+				// every token that arrives passes the throw event (it is not fused after the
+				// first one: in a loop, or with several tokens, each of them continues)
+				evt.activated.Store(true)
+				m.response <- flowAction{sequenceFlows: allSequenceFlows(&evt.outgoing)}
 			}
 		case <-ctx.Done():
 			evt.tracer.Send(CancellationFlowNodeTrace{Node: evt.element})
